@@ -8,11 +8,14 @@
         (result 0 for Set/Compact/bulk; for a bulk call only the state at its end).
 
     Domain (anything else is VBad = generator error): o a multiple of 64 in
-    [0, 2^40]; indices in [-2^40, 2^40] and less than Offset + 2^22 (bounded
-    growth); probes 0 <= j < Offset + 64*len(Words) of the state they are
+    [-2^40, 2^40] (negative offsets and indices included: Go's idx&63 and idx>>6 on negative
+    int64 are Z.land and Z.shiftr); indices in [-2^40, 2^40] and less than Offset + 2^22 (bounded
+    growth); probes -2^40 <= j < Offset + 64*len(Words) of the state they are
     applied to; bulk ranges of at most 2^17 indices. *)
 From Coq Require Import ZArith List Bool String.
 From Low Require Import Lib.Bits Lib.BitSeq Lib.Val Model.TailBitmap Spec.TailBitmapSpec.
+From Low Require Model.BitmapOf.
+From Low Require Import Model.TailBitmapI64.
 Import ListNotations.
 Open Scope string_scope.
 Open Scope Z_scope.
@@ -40,13 +43,13 @@ Definition pop_in_domain (s : tb) (p : pop) : bool :=
   match p with
   | PSet idx => idx_in_domain s idx
   | PCompact => true
-  | PGet j | PGet1 j => (0 <=? j) && (j <? Offset s + 64 * zlen (Words s))
+  | PGet j | PGet1 j => (- BIG <=? j) && (j <? Offset s + 64 * zlen (Words s))
   | PSetUp f t | PSetDown f t =>
       (f <=? t) && (t - f <=? 2^17) && idx_in_domain s f && idx_in_domain s t
   end.
 
 Definition offset_in_domain (o : Z) : bool :=
-  (0 <=? o) && (o <=? BIG) && (o mod 64 =? 0).
+  (- BIG <=? o) && (o <=? BIG) && (o mod 64 =? 0).
 
 Inductive outcome : Type :=
 | OBad
@@ -71,6 +74,105 @@ Fixpoint run_proto (s : tb) (ps : list pop) : outcome :=
 Definition model_history (o : Z) (ps : list pop) : outcome :=
   if offset_in_domain o then run_proto (NewTailBitmap o) ps else OBad.
 
+(** a history that starts from the struct literal TailBitmap{Offset: off, Words: ws}
+    (the unexported [reclaimed] is 0); at most 2^16 words *)
+Definition model_literal (off : Z) (ws : list Z) (ps : list pop) : outcome :=
+  if offset_in_domain off && words_okb ws && (zlen ws <=? 2^16)
+  then run_proto (mkTB off ws 0) ps else OBad.
+
+(** the state at the end of a protocol history *)
+Inductive soutcome : Type :=
+| SBad
+| SPanic
+| SOk (s : tb).
+
+Fixpoint run_proto_state (s : tb) (ps : list pop) : soutcome :=
+  match ps with
+  | [] => SOk s
+  | p :: t =>
+      if negb (pop_in_domain s p) then SBad
+      else match pstep s p with
+           | None => SPanic
+           | Some (s', _) => run_proto_state s' t
+           end
+  end.
+
+(** one position read through TailBitmap.Get/Get1 and through bitmap.Get/Get1/SafeGet/SafeGet1 on the
+    exported Words, i = int32(j - Offset) (the domain keeps j - Offset inside int32) *)
+Definition words_entry (s : tb) (j : Z) : option (list Z) :=
+  let i := j - Offset s in
+  if j <? Offset s + 64 * zlen (Words s) then
+    match Get s j, BitmapOf.Get (Words s) i, Get1 s j, BitmapOf.Get1 (Words s) i,
+          BitmapOf.SafeGet (Words s) i, BitmapOf.SafeGet1 (Words s) i with
+    | Some a1, Some a2, Some a3, Some a4, Some a5, Some a6 => Some [a1; a2; a3; a4; a5; a6]
+    | _, _, _, _, _, _ => None
+    end
+  else
+    match BitmapOf.SafeGet (Words s) i, BitmapOf.SafeGet1 (Words s) i with
+    | Some a5, Some a6 => Some [a5; a6]
+    | _, _ => None
+    end.
+
+Definition words_in_domain (s : tb) (j : Z) : bool := (Offset s <=? j) && (j - Offset s <? 2^31).
+
+Definition model_words (o : Z) (ps : list pop) (js : list Z) : option (option (list (list Z))) :=
+  if offset_in_domain o then
+    match run_proto_state (NewTailBitmap o) ps with
+    | SBad => None
+    | SPanic => Some None
+    | SOk s =>
+        if forallb (words_in_domain s) js then Some (opt_all (map (words_entry s) js)) else None
+    end
+  else None.
+
+(** ---- the same protocol on the int64 model, for offsets and indices near the ends of the int64
+    range (op bitmap.TailBitmap/int64).  Domain: o any int64 multiple of 64; Set indices are int64,
+    below Offset + 2^22 and below the last word of the range (j <= 2^63 - 65: completing that word
+    wraps Offset, see Properties/C15.v: C15_int64_top_word_refuted); probes any int64 below the end;
+    bulk ranges inside [-2^63, 2^63 - 64] (descending: from > -2^63). ---- *)
+Definition pstep64 (s : tb) (p : pop) : option (tb * Z) :=
+  match p with
+  | PSet idx => step64 s (OSet idx)
+  | PCompact => step64 s OCompact
+  | PGet j => step64 s (OGet j)
+  | PGet1 j => step64 s (OGet1 j)
+  | PSetUp f t =>
+      match set_up64 (Z.to_nat (t - f)) s f with Some s' => Some (s', 0) | None => None end
+  | PSetDown f t =>
+      match set_down64 (Z.to_nat (t - f)) s (t - 1) with Some s' => Some (s', 0) | None => None end
+  end.
+
+Definition i64b (j : Z) : bool := (- 2^63 <=? j) && (j <? 2^63).
+
+Definition pop_in_domain64 (s : tb) (p : pop) : bool :=
+  match p with
+  | PSet idx => i64b idx && (idx <? Offset s + 2^22) && (idx <=? 2^63 - 65)
+  | PCompact => true
+  | PGet j | PGet1 j => i64b j && (j <? Offset s + 64 * zlen (Words s))
+  | PSetUp f t =>
+      (f <=? t) && (t - f <=? 2^17) && (- 2^63 <=? f) && (t <=? 2^63 - 64) && (t <? Offset s + 2^22)
+  | PSetDown f t =>   (* idx-- below MinInt64 would wrap: the loop would not end *)
+      (f <=? t) && (t - f <=? 2^17) && (- 2^63 <? f) && (t <=? 2^63 - 64) && (t <? Offset s + 2^22)
+  end.
+
+Fixpoint run_proto64 (s : tb) (ps : list pop) : outcome :=
+  match ps with
+  | [] => OOk []
+  | p :: t =>
+      if negb (pop_in_domain64 s p) then OBad
+      else match pstep64 s p with
+           | None => OPanic
+           | Some (s', r) =>
+               match run_proto64 s' t with
+               | OOk l => OOk ((Offset s', Words s', r) :: l)
+               | x => x
+               end
+           end
+  end.
+
+Definition model_history64 (o : Z) (ps : list pop) : outcome :=
+  if i64b o && (o mod 64 =? 0) then run_proto64 (NewTailBitmap o) ps else OBad.
+
 (** ---- val plumbing ---- *)
 
 Definition dec_pop (v : val) : option pop :=
@@ -88,6 +190,16 @@ Definition dec_args (a : list val) : option (Z * list pop) :=
   match a with
   | [VZ o; VL ops] =>
       match opt_all (map dec_pop ops) with Some ps => Some (o, ps) | None => None end
+  | _ => None
+  end.
+
+Definition dec_args_lit (a : list val) : option (Z * list Z * list pop) :=
+  match a with
+  | [VZ o; ws; VL ops] =>
+      match as_zs ws, opt_all (map dec_pop ops) with
+      | Some ws, Some ps => Some (o, ws, ps)
+      | _, _ => None
+      end
   | _ => None
   end.
 
@@ -119,6 +231,68 @@ Definition ops_C15 : list opdef := [
      op_spec := fun a obs =>
        match dec_args a, dec_obs obs with
        | Some (o, ps), Some l => check_history o ps l
+       | _, _ => false
+       end |};
+  (* op  bitmap.TailBitmap/literal   args [off, words, [call, ...]] : the same history protocol on
+     &TailBitmap{Offset: off, Words: words} *)
+  {| op_name := "bitmap.TailBitmap/literal";
+     op_run := fun a =>
+       match dec_args_lit a with
+       | Some (o, ws, ps) =>
+           match model_literal o ws ps with
+           | OBad => VBad
+           | OPanic => VPanic
+           | OOk l => VL (map enc_ob l)
+           end
+       | None => VBad
+       end;
+     op_spec := fun a obs =>
+       match dec_args_lit a, dec_obs obs with
+       | Some (o, ws, ps), Some l => check_literal o ws ps l
+       | _, _ => false
+       end |};
+  (* op  bitmap.TailBitmap/int64   args [o, [call, ...]] : the history protocol near the ends of the
+     int64 range, run on the int64 model, judged by the same checker *)
+  {| op_name := "bitmap.TailBitmap/int64";
+     op_run := fun a =>
+       match dec_args a with
+       | Some (o, ps) =>
+           match model_history64 o ps with
+           | OBad => VBad
+           | OPanic => VPanic
+           | OOk l => VL (map enc_ob l)
+           end
+       | None => VBad
+       end;
+     op_spec := fun a obs =>
+       match dec_args a, dec_obs obs with
+       | Some (o, ps), Some l => check_history o ps l
+       | _, _ => false
+       end |};
+  (* op  bitmap.TailBitmap/words   args [o, [call, ...], [j, ...]] : the history, then every j read
+     through TailBitmap.Get/Get1 and bitmap.Get/Get1/SafeGet/SafeGet1 on the exported Words *)
+  {| op_name := "bitmap.TailBitmap/words";
+     op_run := fun a =>
+       match a with
+       | [VZ o; VL ops; js] =>
+           match opt_all (map dec_pop ops), as_zs js with
+           | Some ps, Some js =>
+               match model_words o ps js with
+               | None => VBad
+               | Some None => VPanic
+               | Some (Some es) => VL (map vzs es)
+               end
+           | _, _ => VBad
+           end
+       | _ => VBad
+       end;
+     op_spec := fun a obs =>
+       match a, obs with
+       | [VZ o; VL ops; js], VL es =>
+           match opt_all (map dec_pop ops), as_zs js, opt_all (map as_zs es) with
+           | Some ps, Some js, Some es => check_words o (hist_after [] ps) js es
+           | _, _, _ => false
+           end
        | _, _ => false
        end |}
 ].
